@@ -34,7 +34,8 @@ BOUNDARY = {
                "QUERY e WHERE x = 1" + "0" * 400 + ".5", "QUERY e WHERE x IN (99999999999999999999)"],
     "integer": ["PLOT total(x) OF e TOP 99999999999999999999"],
 }
-ALWAYS = ["QUERY e LIMIT 4294967296", "QUERY e LIMIT -1", "QUERY e LIMIT 1 OFFSET 4294967296",
+ALWAYS = ["REMEMBER QUERY \u0131\u00e9 AS x", "REMEMBER QUERY e WHERE c = \"\u0149\u0149\u0149\u0149\u0149\u0149\" AS m",
+          "QUERY e LIMIT 4294967296", "QUERY e LIMIT -1", "QUERY e LIMIT 1 OFFSET 4294967296",
           "QUERY e WHERE x = 99999999999999999999", "QUERY e WHERE x = 1" + "0" * 400 + ".5",
           "QUERY e WHERE x = -9223372036854775809", "REPLAY e FOR c SINCE 99999999999999999999999",
           "QUERY e WHERE " + "(" * 14 + "x = 1" + ")" * 14, "QUERY e WHERE NOT NOT NOT NOT x = 1",
@@ -167,6 +168,85 @@ def obligations(ctx):
                          "span": c["span"], "call": c["call"], "path": [], "model": {}, "candidates": candidates}
         else:
             r.notes.append("candidates did not reproduce natively: " + "; ".join(f"{c['rule']}@{c['span']}" for c in candidates))
+
+    # B-4 offsets used to slice a string were computed on that string (or a byte-length preserving copy)
+    r4 = Result("B-4", "parser bodies: a string is sliced only at offsets found on that same string or on a copy that "
+                       "preserves byte offsets (ASCII case mapping) - an offset found in a Unicode case-mapped, trimmed or "
+                       "otherwise re-encoded copy can fall outside a char boundary of the original and panic")
+    r4.functions = [f"{len(bodies)} bodies under command::parser"]
+    r4.bounds = r.bounds
+    out.append(r4)
+    FIND = re.compile(r"str>::(find|rfind)::|core::str::<impl str>::(find|rfind)::|impl str>::(find|rfind|match_indices|rmatch_indices|char_indices)")
+    SLICE = re.compile(r"SliceIndex<str>|as Index<(?:std::ops::)?Range|str>::split_at|impl str>::(split_at|get)\b|Index<.*Range.*>>::index$")
+    PRESERVING = re.compile(r"to_ascii_uppercase|to_ascii_lowercase|Deref::deref|String::as_str|as_bytes|Clone::clone|ToOwned::to_owned|ToString::to_string|Borrow::borrow|AsRef::as_ref")
+    sliced = 0
+    for f in bodies:
+        txt = open(f, errors="replace").read()
+        if not (re.search(r"::r?find::<", txt) and re.search(r"Range", txt)):
+            continue
+        fn = mir.parse_file(f)
+        if mir.self_check(fn):
+            continue
+        E = sym.Evaluation(fn, ctx.structs, k=ctx.k)
+        by_site = {e.site: e for e in E.events if e.site}
+        finds = [e for e in E.events if FIND.search(e.func)]
+        if not finds:
+            continue
+        for ev in E.events:
+            if not SLICE.search(ev.func) or len(ev.args) < 2:
+                continue
+            # which argument is the string, which the range
+            rng = ev.args[1] if not isinstance(ev.args[1], sym.Ref) else ev.args[0]
+            target = ev.args[0] if rng is ev.args[1] else ev.args[1]
+            tr = E.trace(rng, ev.env, depth=10)
+            used = [fe for fe in finds if fe.site in tr or any(fe.site in x for x in tr)]
+            if not used:
+                continue
+            sliced += 1
+            tgt = target
+            if isinstance(tgt, sym.Ref):
+                tgt, _ = E.read_place(ev.env, tgt.place)
+            tgt_l = sym.describe(tgt)
+            for fe in used:
+                src = fe.args[0]
+                if isinstance(src, sym.Ref):
+                    src, _ = E.read_place(fe.env, src.place)
+                # walk back from the searched string to the sliced one
+                cur, ok, hops = sym.describe(src), False, 0
+                while hops < 6:
+                    if cur == tgt_l:
+                        ok = True
+                        break
+                    e2 = by_site.get(re.sub(r"(:[A-Za-z]+|\.[A-Za-z0-9_]+)+$", "", cur))
+                    if e2 is None or not PRESERVING.search(e2.func) or not e2.args:
+                        break
+                    nxt = e2.args[0]
+                    if isinstance(nxt, sym.Ref):
+                        nxt, _ = E.read_place(e2.env, nxt.place)
+                    cur = sym.describe(nxt)
+                    hops += 1
+                if not ok:
+                    rr, model = q.check(ev.reach, domain=E.domain)
+                    r4.queries += 1
+                    if rr == z3.sat:
+                        r4.status = "violated"
+                        r4.witness = {"what": f"{fn.name[-50:]}: a string ({tgt_l[:40]}) is sliced at an offset found by "
+                                              f"{fe.short} on a different text ({sym.describe(src)[:50]})",
+                                      "span": f"{ev.span[0]}:{ev.span[1]}" if ev.span else None, "call": ev.func[:100],
+                                      "path": E.path_of_model(model), "model": {}}
+                        break
+            if r4.status != "holds":
+                break
+        if r4.status != "holds":
+            break
+    r4.nontrivial = sliced > 0
+    r4.notes.append(f"{sliced} slicing sites fed by a find/rfind offset examined")
+    if r4.status == "violated" and binary is not None:
+        for inp in ("REMEMBER QUERY \u0131\u00e9 AS x", "REMEMBER QUERY orders WHERE city = \"Kad\u0131k\u00f6y\" AS m"):
+            rc, line = run_native(binary, ["parse", inp])
+            if rc == 3:
+                r4.witness["native"] = line
+                break
 
     # B-3 dispatch totality
     b = Builder(ctx, "command-dispatcher-dispatch_command-{closure#0}.", "dispatch_command", {})
